@@ -65,6 +65,29 @@ func init() {
 		return st, r, true
 	}
 	externModels["fmt.Errorf"] = externModels["errors.New"]
+	// io.ReadFull / io.ReadAtLeast: 0 <= n <= len(buf); err == nil implies n >= min (ReadFull: n == len(buf)).
+	// The bytes read are unknown (the buffer's cells are havoc'd by the call's inferred frame).
+	readModel := func(full bool) externModel {
+		return func(ex *Exec, fr *Frame, instr ssa.CallInstruction, c *ssa.CallCommon, args []Term, pc Term, st State) (State, Term, bool) {
+			ex.modelUsed("io.ReadFull / io.ReadAtLeast: 0 <= n <= len(buf), and n >= min when err == nil")
+			keys := ex.g.siteFrame(instr)
+			before := st
+			st = ex.havocKeys(st, keys, "io.Read*")
+			ex.preserveLocals(fr, pc, before, st, keys, c)
+			buf := args[1]
+			n := ex.vc.fresh("nread", SInt)
+			err := ex.vc.fresh("readerr", SIface)
+			min := sLen(buf)
+			if !full {
+				min = args[2]
+			}
+			ex.vc.assume(tTrue, and(app(SBool, "<=", intLit(0), n), app(SBool, "<=", n, sLen(buf)),
+				implies(eq(app(SInt, "itag", err), intLit(0)), app(SBool, ">=", n, min))), "io read result")
+			return st, Term{Tuple: []Term{n, err}}, true
+		}
+	}
+	externModels["io.ReadFull"] = readModel(true)
+	externModels["io.ReadAtLeast"] = readModel(false)
 }
 
 func (ex *Exec) modelUsed(s string) { ex.assumed["library model: "+s] = true }
